@@ -180,7 +180,7 @@ def nontrivial(chk, p, r, m):
 
 
 def run(chk):
-    n = 300 if chk.tier == "quick" else 10000
+    n = 900 if chk.tier == "quick" else 10000
     chk.rule = ("random projects with the same variables defined as single/list values on contexts, module global/export/local envs, app envs and "
                 "-D/+=; dumped flattened global env and every module env + the whole ninja file compared with the model's; oracle recomputes the "
                 "documented formula ((global + exports of the import closure, dependencies first) + notify) + local from the dumped layers, and "
